@@ -49,7 +49,7 @@ theorem lead_quiet (c : LCfg) (s : LState) (hs : Quiescent s) (lead : List Tick)
     (hl : ∀ x ∈ lead, x.1.openOk = false) :
     (∀ ls ∈ lrun c s lead, ls = .noCarrier) ∧ lrunBursts c s lead = []
       ∧ Quiescent (lrunState c s lead) :=
-  quiet_run c lead hl s hs
+  quiet_run_closed c lead hl s hs
 
 /-- (b) the first synchronisation happens at body tick `syncTick acq` — the end of the first
     byte-aligned window at or after `acq + 31` — and not before: right after that tick the byte
